@@ -83,8 +83,11 @@ def run_case(case, ctx):
     S, T = case["S"], case["T"]
     ref, info = om.wasserstein_ref(S, T)
     ctx.state((S, T))
-    v, _ = call_warn(ctx, persim.wasserstein, farr(S), farr(T))
+    v, nw = call_warn(ctx, persim.wasserstein, farr(S), farr(T))
     ctx.outcome(round(float(v), 9) if is_num(v) else repr(v))
+    if nw.claims_nonfinite():
+        ctx.violation("spurious-inf-warning", "warning about non-finite death times on diagrams that have none",
+                      observed=nw.messages[:2], expected="no such warning", extra={"S": S, "T": T})
     check_value(ctx, "value", v, ref, 1e3, "float arrays", S, T)
     if info["mixed"]:
         ctx.nontriv("optimum_mixes_diagonal_and_cross")
